@@ -27,7 +27,8 @@ META = dict(
          'Script.get_context (leaf choice, header special case, create_context header rule, indentation '
          'walk-up), BaseName.parent and get_qualified_names satisfies the geometric Reference (innermost '
          'def/class whose body extent contains the position; enclosing bodies of a definition; module path + '
-         '__qualname__), up to two named known deviations. Emitted cases are rendered; tokenize/ast/import '
+         '__qualname__); the three repaired get_context defects are switches of the model (constant Fixed; the '
+         'what-if model of the old code must still violate CtxStrict). Emitted cases are rendered; tokenize/ast/import '
          'validate layout, scope table and __qualname__ (Reference vs CPython); the real get_context / '
          'parent() / full_name are compared with the Design (drift) and judged by TLC (Trace_Nesting) '
          'together with corpus files (identifier positions, all definitions) against an ast-derived table.',
@@ -51,20 +52,37 @@ CONSTANTS
   Units = {%s}
   EmitMod = %d
   EmitRem = %d
+  Fixed = {%s}
 %s
 CHECK_DEADLOCK FALSE
 '''
 
+ALL_FIXES = ('AsyncColumn', 'DedentCont', 'LambdaInClass')
+
+
+def default_fixed():
+    """Which get_context repairs the modelled code contains: all (the repaired /repo) unless
+    C18_FIXED says otherwise ('none' or a comma list) -- for runs against an unrepaired tree."""
+    v = os.environ.get('C18_FIXED')
+    if v is None:
+        return ALL_FIXES
+    got = tuple(x for x in v.split(',') if x and x != 'none')
+    if set(got) - set(ALL_FIXES):
+        raise MachineryError('C18_FIXED: unknown repair in %r' % v)
+    return got
+
 INVS = ['CtxOK', 'ParentOK', 'FullNameOK', 'LayoutOK']
 
 
-def write_cfg(ctx, name, items, depth, scopes, extras, units, mod=1, rem=0, invs=INVS, emit=False):
+def write_cfg(ctx, name, items, depth, scopes, extras, units, mod=1, rem=0, invs=INVS, emit=False, fixed=None):
+    fixed = default_fixed() if fixed is None else fixed
     body = '\n'.join('INVARIANT %s' % i for i in invs)
     if emit:
         body += '\nCONSTRAINT Emit'
     p = os.path.join(ctx.tmp, name)
     with open(p, 'w') as f:
-        f.write(CFG % (items, depth, scopes, extras, ', '.join(map(str, units)), mod, rem, body))
+        f.write(CFG % (items, depth, scopes, extras, ', '.join(map(str, units)), mod, rem,
+                       ', '.join('"%s"' % x for x in fixed), body))
     return p
 
 
@@ -627,9 +645,6 @@ def report_rejects(ctx, rejects, traces, wheres, srcs, origin):
 
 
 # ---------------------------------------------------------------- main
-KNOWN_SHAPES = {'async-def-column', 'dedented-continuation', 'lambda-in-class'}
-
-
 def run(ctx):
     quick = ctx.quick
     os.environ['C18_TMP'] = ctx.tmp
@@ -670,17 +685,26 @@ def run(ctx):
     if r1.violated:
         raise MachineryError('Nesting.tla: %s violated on the small configuration' % r1.violated)
 
-    # ---- 1b. the named deviations are real: the stricter invariants must fail in the model, and the
-    #          counterexample program must show the same deviation on the real code
+    # ---- 1b. sensitivity of the model: the what-if models of the OLD code (Fixed without a repair) must
+    #          violate CtxStrict; each counterexample program is then observed on the real code and judged
+    #          like any other trace (with the repairs in the code it must be accepted).  CtxLiteral must fail
+    #          too (HeaderSelf, tolerated by the Reference) and is confirmed on the code.
+    fixed = default_fixed()
+    ctx.coverage['modelled_repairs'] = list(fixed)
     cex_traces, cex_wheres, cex_srcs = [], [], []
-    for inv, what in (('CtxStrict', 'AsyncColumn / DedentCont / LambdaInClass'), ('CtxLiteral', 'HeaderSelf')):
-        r2 = run_tlc('Nesting', write_cfg(ctx, 'strict_%s.cfg' % inv, invs=[inv], **small), workers=4, timeout=1200)
-        ctx.add_tlc(r2, 'expected counterexample %s (%s)' % (inv, what))
+    whatifs = [('CtxStrict', (), 'old code: no repair'),
+               ('CtxStrict', tuple(x for x in ALL_FIXES if x != 'DedentCont'), 'without the DedentCont repair'),
+               ('CtxStrict', tuple(x for x in ALL_FIXES if x != 'LambdaInClass'), 'without the LambdaInClass repair'),
+               ('CtxLiteral', fixed, 'HeaderSelf')]
+    for n, (inv, fx, what) in enumerate(whatifs):
+        r2 = run_tlc('Nesting', write_cfg(ctx, 'whatif_%d.cfg' % n, invs=[inv], fixed=fx, **small), workers=4,
+                     timeout=1200)
+        ctx.add_tlc(r2, 'expected counterexample %s, Fixed=%s (%s)' % (inv, list(fx), what))
         if not r2.violated or not r2.trace:
-            raise MachineryError('%s holds: the deviation %s is no longer in the Design' % (inv, what))
+            raise MachineryError('%s holds with Fixed=%s: the model lost its sensitivity (%s)' % (inv, list(fx), what))
         st = r2.trace[-1]['vars']
         src = render(st['prog'], st['unit'])
-        ctx.coverage['counterexample_' + inv] = src
+        ctx.coverage.setdefault('whatif_counterexamples', []).append({'invariant': inv, 'Fixed': list(fx), 'source': src})
         # observed in forked workers: the parent must not own a jedi helper subprocess before pmap forks
         rec = jutil.pmap(record_counterexample, [src] * 4, procs=4)[0]
         jutil.check_worker_errors([rec])
@@ -701,17 +725,13 @@ def run(ctx):
                            'source': src})
             else:
                 ctx.coverage['header_self_confirmed_on_code'] = hs[0]
-    _, rej = judge(ctx, cex_traces, 'Trace_Nesting counterexample of CtxStrict on the real code')
-    if not any(r[2][0] == 'ctx' and r[2][2] in KNOWN_SHAPES for r in rej):
-        # the code no longer shows the modelled deviation (e.g. it was fixed): the property holds there;
-        # the Design is out of date -> drift, not a failure
-        ctx.drift({'what': 'CtxStrict counterexample of the Design is not reproduced by the code '
-                           '(deviation fixed? update Nesting.tla and known_findings.d/C18.json)',
-                   'source': cex_srcs[0]})
-    report_rejects(ctx, rej, cex_traces, cex_wheres, cex_srcs, 'TLC counterexample of CtxStrict')
+    _, rej = judge(ctx, cex_traces, 'Trace_Nesting: what-if counterexamples observed on the real code')
+    report_rejects(ctx, rej, cex_traces, cex_wheres, cex_srcs, 'what-if counterexample (old get_context)')
+    ctx.notes.append('AsyncColumn alone shows only on positions that are not on code (on_code covers the rest): '
+                     'its absence is detected as drift of the prefix/comment positions in the replay leg')
 
     # ---- 2. emitted cases -> replay (spec -> code): a BFS slice of small programs + simulation walks
-    mod = 5 if quick else (67 if scale < 1 else 41)
+    mod = 5 if quick else 67
     eb = dict(items=3, depth=2, scopes=3, extras=1, units=units) if quick else \
         dict(items=4, depth=3, scopes=4, extras=2, units=units)
     cfg = write_cfg(ctx, 'emit.cfg', mod=mod, rem=ctx.seed % mod, invs=[], emit=True, **eb)
@@ -719,7 +739,7 @@ def run(ctx):
     ctx.add_tlc(res, 'case emission slice %d mod %d %s' % (ctx.seed % mod, mod, eb))
     cs = cases(res)
     sb = dict(items=7, depth=4, scopes=6, extras=3, units=units)
-    nsim = 60 if quick else (250 if scale < 1 else 500)
+    nsim = 60 if quick else (250 if scale < 1 else 400)
     cfg = write_cfg(ctx, 'sim.cfg', mod=1, rem=0, invs=['DesignMeetsReference'], emit=True, **sb)
     res = run_tlc('Nesting', cfg, workers=1, timeout=6000, simulate='num=%d' % nsim, depth=8, seed=ctx.seed)
     ctx.add_tlc(res, 'simulation walks with emission %s' % sb)
@@ -775,7 +795,7 @@ def run(ctx):
     # ---- 3. corpus (code -> spec)
     files = jutil.corpus_files(limit=30 if quick else (60 if scale < 1 else None), rng=ctx.rng)
     ctx.log('corpus: %d files' % len(files))
-    recs = jutil.pmap(record_file, [(f, 150 if quick else (400 if scale < 1 else 600), 100 if quick else 300, ctx.seed + i)
+    recs = jutil.pmap(record_file, [(f, 150 if quick else 400, 100 if quick else 300, ctx.seed + i)
                                     for i, f in enumerate(files)], chunksize=1)
     jutil.check_worker_errors(recs)
     ctraces, cwheres, csrcs = [], [], []
@@ -826,6 +846,15 @@ def run(ctx):
         raise MachineryError('binding self-test: corrupted trace accepted %s' % vs)
     ctx.coverage['binding_selftest'] = 'corrupted ctx / parent chain / full_name rejected: %s' % [v['why'] for v in vs]
 
+    if not quick:
+        ctx.coverage['thorough_reductions'] = [
+            'exhaustive TLC at items<=5/depth<=4/scopes<=5 with MaxExtras=1 (286 620 states) and at items<=4 with '
+            'MaxExtras=2 (86 733 states) instead of items<=5 with MaxExtras=2 (1 281 852 states)',
+            'replay: every 67th program of the items<=4/extras<=2 space + %d simulation walks (items<=7, depth<=4, '
+            'scopes<=6), not every enumerated program' % nsim,
+            'corpus: all files, but at most 400 identifier positions and 300 variable/parameter names per file '
+            '(all def/class definitions are always observed)'] + (
+            ['C18_SCALE<1: smaller exhaustive configuration and 60 corpus files'] if scale < 1 else [])
     ctx.assumptions += [
         'header positions (first decorator .. colon) may answer the enclosing scope or the definition itself',
         'positions on whitespace / comments / blank lines are predicted by the Design (drift) but not judged',
